@@ -20,7 +20,7 @@ SCENARIOS = {
         "theorems": ["C01_reader_reachable", "C01_forest", "C01_invariant", "C01_checker_accepts", "C01_build", "C01_build_any", "C01_history",
                      "C01_checker_sound", "C01_inv_add", "C01_inv_append", "C01_inv_del", "C01_inv_clear"],
         "quick": [hist("c01", 60, extra=T1), hist("c01", 15), hist("c14", 8, extra=T1)],
-        "thorough": [hist("c01", 2500, "thorough", extra=T1), hist("c01", 600, "thorough"), hist("c14", 60, "thorough", extra=T1)],
+        "thorough": [hist("c01", 1200, "thorough", extra=T1), hist("c01", 300, "thorough"), hist("c14", 60, "thorough", extra=T1)],
         "counts": ["C01"],
     },
     "C04": {
